@@ -6,6 +6,7 @@ EXTENDS GraphSLAM, SequencesExt
 VARIABLES cfg
 allvars == <<vars, cfg>>
 
+AllPresent(n) == [j \in 1..n |-> TRUE]
 \* id schemes: "tens": endpoints 10, 20, 30 and a decoy 99;  "dense": ids 0..N-1 with a decoy first (0) and last (N-1) and the endpoints
 \* in between (in the order given by perm), i.e. a zero-based contiguous id range whose interior may be out of order
 EId(c, j) == IF c.ids = "dense" THEN j ELSE 10 * j
@@ -18,7 +19,15 @@ VList(c) ==
      ELSE IF c.perm = "rev" THEN <<MkV(99, "SE2")>> \o mid ELSE mid \o <<MkV(99, "SE2")>>
 \* dup = "none": the edge names nv different vertices; dup = "last": it names nv vertices but the last id repeats the first one
 EVids(c) == [j \in 1..c.nv |-> IF c.dup = "last" /\ j = c.nv /\ c.nv > 1 THEN EId(c, 1) ELSE EId(c, j)]
-EList(c) == << [cls |-> c.cls, vids |-> EVids(c), est |-> c.est, off |-> c.off, info |-> c.info, valid |-> TRUE, num |-> "n"] >>
+TestEdge(c) == [cls |-> c.cls, vids |-> EVids(c), est |-> c.est, off |-> c.off, info |-> c.info, valid |-> TRUE, num |-> "n"]
+\* a CONSISTENT edge of the same class over the same two endpoints, listed before the edge under test (when the endpoint kinds admit one):
+\* every edge of a graph is checked, not one representative per kind of edge
+HasCompanion(c) == /\ c.comp /\ c.nv = 2 /\ c.present = AllPresent(2) /\ c.dup = "none"
+                   /\ IF c.cls = "odo" THEN c.kinds[1] = c.kinds[2] ELSE IsPoint(c.kinds[2]) /\ Dim(c.kinds[1]) = Dim(c.kinds[2])
+Companion(c) == IF c.cls = "odo"
+                THEN [cls |-> "odo", vids |-> EVids(c), est |-> c.kinds[1], off |-> "none", info |-> <<CDim(c.kinds[1]), CDim(c.kinds[1])>>, valid |-> TRUE, num |-> "m"]
+                ELSE [cls |-> "lm", vids |-> EVids(c), est |-> c.kinds[2], off |-> c.kinds[1], info |-> <<CDim(c.kinds[2]), CDim(c.kinds[2])>>, valid |-> TRUE, num |-> "m"]
+EList(c) == IF HasCompanion(c) THEN << Companion(c), TestEdge(c) >> ELSE << TestEdge(c) >>
 
 MCNext == Construct(VList(cfg), EList(cfg)) /\ cfg' = cfg
 
@@ -27,16 +36,16 @@ OffTypes == Kinds \cup {"none"}
 SquareShapes == { <<n, n>> : n \in 1..7 }
 OddShapes == { <<2, 3>>, <<3, 2>>, <<3, 0>> }
 KindTuples(n) == [1..n -> Kinds]
-AllPresent(n) == [j \in 1..n |-> TRUE]
 \* one family of initial configurations (existential form: TLC enumerates it orders of magnitude faster than membership in a big set)
 InitCfg(clss, nvs, ests, offs, infos, presents(_), perms) ==
   \E cl \in clss, n \in nvs, es \in ests, of \in offs, inf \in infos, pm \in perms :
     \E ks \in KindTuples(n), pr \in presents(n) :
       /\ (cl = "odo" => of = "none")
-      /\ \E sch \in {"tens", "dense"}, dp \in {"none", "last"} :
+      /\ \E sch \in {"tens", "dense"}, dp \in {"none", "last"}, cp \in BOOLEAN :
+           /\ (cp => n = 2 /\ pr = AllPresent(n) /\ dp = "none" /\ sch = "tens")
            /\ (dp = "last" => n = 3 /\ pr = AllPresent(n))                 \* (an edge naming one vertex twice among TWO ids is outside the domain, R7)
            /\ (sch = "dense" => pr = AllPresent(n))
-           /\ cfg = [cls |-> cl, nv |-> n, kinds |-> ks, est |-> es, off |-> of, info |-> inf, present |-> pr, perm |-> pm, ids |-> sch, dup |-> dp]
+           /\ cfg = [cls |-> cl, nv |-> n, kinds |-> ks, est |-> es, off |-> of, info |-> inf, present |-> pr, perm |-> pm, ids |-> sch, dup |-> dp, comp |-> cp]
 AnyPresent(n) == [1..n -> BOOLEAN]
 OneAbsent(n) == { AllPresent(n) } \cup { [j \in 1..n |-> j # a] : a \in 1..n }
 \* the typing verdict does not depend on the order of the vertex list (bind by id)
